@@ -12,4 +12,11 @@ namespace BV.Py
 /-- `binascii.crc_hqx(data, seed)` -/
 def crcHqx (bs : List UInt8) (seed : Nat) : Nat := (BV.Ash.crcFrom (BitVec.ofNat 16 seed) bs).toNat
 
+/-- exception *values* stored in futures / passed around (`raise` only needs the class name) -/
+inductive ExcVal
+  | runtimeError
+  | notAcked
+  | ncpFailure (code : Option Nat)
+deriving Repr, DecidableEq
+
 end BV.Py
